@@ -77,7 +77,7 @@ func (impl Implementation) Dgebrd(m, n int, a []float64, lda int, d, e, tauQ, ta
 	// Quick return if possible.
 	minmn := min(m, n)
 	if minmn == 0 {
-		work[0] = 1
+		work[0] = float64(max(1, max(m, n)))
 		return
 	}
 
